@@ -34,3 +34,115 @@ func vC01(sh *vShape) {
 func VerifC01_Tiny()     { vC01(&vShapeTiny) }
 func VerifC01_Quick()    { vC01(&vShapeQuick) }
 func VerifC01_Thorough() { vC01(&vShapeThorough) }
+
+// ---- boundary lengths -----------------------------------------------------------
+// Strings, data and lists at the lengths where a width matters (255/256, 65535,
+// 65536, the largest stat record that is still representable).  Contents are a
+// concrete pattern except the first and last byte, which stay symbolic; all
+// integer fields stay symbolic.
+func vBigBytes(name string, n int) []byte {
+	b := make([]byte, n)
+	for i := range b {
+		b[i] = byte(i*7 + 1)
+	}
+	if n > 0 {
+		b[0] = ndU8(name + ".first")
+		b[n-1] = ndU8(name + ".last")
+	}
+	return b
+}
+
+func vC01Big(strLens, dataLens, listLens []int) {
+	tag := Tag(ndU16("tag"))
+	var kind FcallType
+	var msg Message
+	bigStr := func(name string) string { return string(vBigBytes(name, vPick(name+".len", strLens))) }
+	switch ndChoice("case", 11) {
+	case 0:
+		kind, msg = Tversion, MessageTversion{MSize: ndU32("msize"), Version: bigStr("version")}
+	case 1:
+		kind, msg = Rerror, MessageRerror{Ename: bigStr("ename")}
+	case 2:
+		kind, msg = Tauth, MessageTauth{Afid: Fid(ndU32("afid")), Uname: bigStr("uname"), Aname: ndString("aname", 1)}
+	case 3:
+		kind, msg = Tattach, MessageTattach{Fid: Fid(ndU32("fid")), Afid: Fid(ndU32("afid")), Uname: ndString("uname", 1), Aname: bigStr("aname")}
+	case 4:
+		kind, msg = Tcreate, MessageTcreate{Fid: Fid(ndU32("fid")), Name: bigStr("name"), Perm: ndU32("perm"), Mode: Flag(ndU8("mode"))}
+	case 5:
+		n := vPick("nwname", listLens)
+		names := make([]string, n)
+		for i := range names {
+			names[i] = string([]byte{byte('a' + i%26)})
+		}
+		if n > 0 {
+			names[0] = ndString("wname.first", 1)
+			names[n-1] = bigStr("wname.last")
+		}
+		kind, msg = Twalk, MessageTwalk{Fid: Fid(ndU32("fid")), Newfid: Fid(ndU32("newfid")), Wnames: names}
+	case 6:
+		n := vPick("nwqid", listLens)
+		qids := make([]Qid, n)
+		for i := range qids {
+			qids[i] = Qid{Type: QType(i), Version: uint32(i) * 3, Path: uint64(i) * 0x0101010101}
+		}
+		if n > 0 {
+			qids[0] = ndQid("wqid.first")
+			qids[n-1] = ndQid("wqid.last")
+		}
+		kind, msg = Rwalk, MessageRwalk{Qids: qids}
+	case 7:
+		kind, msg = Rread, MessageRread{Data: vBigBytes("data", vPick("data.len", dataLens))}
+	case 8:
+		kind, msg = Twrite, MessageTwrite{Fid: Fid(ndU32("fid")), Offset: ndU64("offset"), Data: vBigBytes("data", vPick("data.len", dataLens))}
+	case 9, 10:
+		d := ndDir("stat", &vShapeTiny)
+		// one long string; the largest name for which Rstat's outer size field
+		// (stat size + 2) still fits 16 bits is 65486 - (other strings)
+		which := ndChoice("stat.which", 4)
+		room := 65486 - len(d.Name) - len(d.UID) - len(d.GID) - len(d.MUID)
+		lens := append([]int{}, strLens...)
+		lens = append(lens, room)
+		l := vPick("stat.len", lens)
+		if l > room {
+			l = room
+		}
+		switch which {
+		case 0:
+			l += len(d.Name)
+			d.Name = string(vBigBytes("stat.name", l))
+		case 1:
+			l += len(d.UID)
+			d.UID = string(vBigBytes("stat.uid", l))
+		case 2:
+			l += len(d.GID)
+			d.GID = string(vBigBytes("stat.gid", l))
+		case 3:
+			l += len(d.MUID)
+			d.MUID = string(vBigBytes("stat.muid", l))
+		}
+		if ndChoice("stat.t", 2) == 0 {
+			kind, msg = Rstat, MessageRstat{Stat: d}
+		} else {
+			kind, msg = Twstat, MessageTwstat{Fid: Fid(ndU32("fid")), Stat: d}
+		}
+	}
+	fc := &Fcall{Type: kind, Tag: tag, Message: msg}
+	codec := NewCodec()
+	want := refEncode(kind, tag, msg)
+	got, err := codec.Marshal(fc)
+	vAssert(err == nil, "C01: Marshal of a representable message succeeds")
+	vAssert(len(got) == len(want), "C01: encoded length equals the manual's layout")
+	vAssertEqBytes(got, want, "C01: encoding is byte-for-byte the manual's layout")
+	vAssert(codec.Size(fc) == len(got), "C01: Size equals number of bytes produced")
+	var back Fcall
+	err = codec.Unmarshal(got, &back)
+	vAssert(err == nil, "C01: decoding the encoding succeeds")
+	vAssert(back.Type == kind && back.Tag == tag, "C01: decoded type and tag equal the original")
+	vAssert(vMsgEq(msg, back.Message), "C01: decoded message equals original field by field")
+	vObserve("kind", uint8(kind))
+	vObserve("len", len(got))
+	vReach("c01.big")
+}
+
+func VerifC01_BigQuick()    { vC01Big([]int{255, 256, 65535}, []int{255, 256, 65536}, []int{16, 17, 300}) }
+func VerifC01_BigThorough() { vC01Big([]int{127, 128, 255, 256, 257, 65534, 65535}, []int{255, 256, 65535, 65536, 1 << 20}, []int{15, 16, 17, 255, 256, 65535}) }
